@@ -112,7 +112,8 @@ LBGS_MAXITER = 300
 KRYLOV_PRECON = False     # with the LinearRunOnce preconditioner GMRES stagnates in forward mode on the unmodified code
 
 
-def build_aerostruct(surfaces, flows, nonlinear="nlbgs", linear="direct", aitken=True, mode="auto", struct_surfaces=None):
+def build_aerostruct(surfaces, flows, nonlinear="nlbgs", linear="direct", aitken=True, mode="auto", struct_surfaces=None,
+                     compressible=False, rotational=False):
     """AerostructGeometry per surface + one AerostructPoint per flow (multipoint when several flows).  Tube or wingbox.
     flows: list of dicts(alpha, v, rho, Mach_number, re, load_factor, ...)"""
     from openaerostruct.integration.aerostruct_groups import AerostructGeometry, AerostructPoint
@@ -135,14 +136,24 @@ def build_aerostruct(surfaces, flows, nonlinear="nlbgs", linear="direct", aitken
         ivc.add_output("rho" + sfx, val=f.get("rho", 0.38), units="kg/m**3")
         ivc.add_output("speed_of_sound" + sfx, val=f.get("speed_of_sound", 295.4), units="m/s")
         ivc.add_output("load_factor" + sfx, val=f.get("load_factor", 1.0))
+        if rotational:
+            ivc.add_output("omega" + sfx, val=np.array(f.get("omega", np.zeros(3)), dtype=float), units="rad/s")
+            ivc.add_output("cg_rot" + sfx, val=np.array(f.get("cg_rot", np.zeros(3)), dtype=float), units="m")
+        if any(s.get("groundplane", False) for s in surfaces):
+            ivc.add_output("height_agl" + sfx, val=f.get("height_agl", 8000.0), units="m")
     prob.model.add_subsystem("prob_vars", ivc, promotes=["*"])
     for s in surfaces:
         prob.model.add_subsystem(s["name"], AerostructGeometry(surface=s))
     for i, f in enumerate(flows):
         sfx = "" if npts == 1 else "_%d" % i
         pn = "AS_point_%d" % i
-        pt = AerostructPoint(surfaces=surfaces)
+        pt = AerostructPoint(surfaces=surfaces, compressible=compressible, rotational=rotational)
         prob.model.add_subsystem(pn, pt)
+        if rotational:
+            prob.model.connect("omega" + sfx, pn + ".coupled.aero_states.omega")
+            prob.model.connect("cg_rot" + sfx, pn + ".coupled.aero_states.cg")
+        if any(s.get("groundplane", False) for s in surfaces):
+            prob.model.connect("height_agl" + sfx, pn + ".height_agl")
         for k in ("v", "alpha", "beta", "Mach_number", "re", "rho", "speed_of_sound", "load_factor"):
             prob.model.connect(k + sfx, pn + "." + k)
         if any(s.get("struct_weight_relief") or s.get("distributed_fuel_weight") or "n_point_masses" in s for s in surfaces):
